@@ -116,7 +116,7 @@ def check_c01(ctx):
     for i, l in enumerate(lines):
         if i >= len(impl):
             break
-        what = monitor_queue(l, impl[i])
+        what = None if impl[i].startswith('<harness died') else monitor_queue(l, impl[i])
         if what:
             prop_fail.add(i)
             ctx.violation('queue-' + hashlib.sha256(l.encode()).hexdigest()[:10], 'C01: ' + what,
